@@ -561,11 +561,16 @@ fn children(points: &[PointRec], from: usize, bound: usize) -> (usize, Vec<Vec<u
 /// over several worker processes).  `run` executes one schedule for a prefix, judges it itself and
 /// may return false to stop the search.
 pub fn explore_from(bound: usize, start: Vec<u8>, expand_only: bool, max_schedules: u64, mut run: impl FnMut(&[u8]) -> (Vec<PointRec>, bool)) -> (ExploreStats, Vec<Vec<u8>>) {
+    explore_until(bound, start, expand_only, max_schedules, None, &mut run)
+}
+
+/// As `explore_from`, giving up (reported as capped) once the wall-clock deadline has passed.
+pub fn explore_until(bound: usize, start: Vec<u8>, expand_only: bool, max_schedules: u64, deadline: Option<std::time::SystemTime>, run: &mut dyn FnMut(&[u8]) -> (Vec<PointRec>, bool)) -> (ExploreStats, Vec<Vec<u8>>) {
     let mut stats = ExploreStats { schedules: 0, by_bound: vec![0; bound + 1], max_points: 0, context_switches: 0, capped: false, bound_completed: -1 };
     let mut stack: Vec<Vec<u8>> = vec![start];
     let mut handed_out = vec![];
     while let Some(prefix) = stack.pop() {
-        if stats.schedules >= max_schedules {
+        if stats.schedules >= max_schedules || deadline.map(|d| std::time::SystemTime::now() > d).unwrap_or(false) {
             stats.capped = true;
             return (stats, handed_out);
         }
